@@ -560,7 +560,14 @@ class DAG(nx.DiGraph):
                 if not self.has_edge(parents[0], parents[1]) and not self.has_edge(
                     parents[1], parents[0]
                 ):
-                    immoralities.add(tuple(sorted(parents)))
+                    try:
+                        pair = tuple(sorted(parents))
+                    except TypeError:
+                        # Node names of different types do not compare with each other.
+                        pair = tuple(
+                            sorted(parents, key=lambda n: (type(n).__name__, repr(n)))
+                        )
+                    immoralities.add(pair)
         return immoralities
 
     def is_dconnected(self, start, end, observed=None):
